@@ -1,11 +1,12 @@
 """C09 — tsm1.Cache behaves as a size-bounded newest-wins map under concurrency.  Spec: Cache.tla (+ TraceCache.tla).
 
-1. TLC checks the design (WriteMulti as load/check/capture/reserve/store(k), Snapshot, ClearSnapshot in its two halves, DeleteRange,
-   Values in its two halves) for 2-3 writers + snapshotter + deleter + reader: ValuesContract, SizeAccounting, EntriesTyped,
+1. TLC checks the design (WriteMulti as load/check/capture/reserve and, per key, lookup/add; Snapshot and ClearSnapshot in their
+   halves, DeleteRange per key as size/filter/remove+refund, Values in its two halves) for 2-3 writers + snapshotter + deleter + reader: ValuesContract, SizeAccounting, EntriesTyped,
    RejectedStoresNothing, TypeConflictOneKey, WriteOutcomeStep, LimitStep; coverage guard on every action.
-2. Two *lead* configs let TLC show that the strict contract Size() = accounted bytes fails on the model of the code (reader dedup
-   without refund: F8; a write that spans a Snapshot swap); both are then reproduced on the real cache (sequential replay rediscovers
-   F8; the `span` case forces the second schedule) and reported as known findings, never believed from the model alone.
+2. Three *lead* configs let TLC show that the strict contract Size() = accounted bytes fails on the model of the code (reader dedup
+   without refund: F8; a write that spans a Snapshot swap: F23; a store.write racing with DeleteRange on its entry: F24); they are
+   reproduced on the real cache (sequential replay rediscovers F8; the `span` case forces F23; the `orphan` case searches for F24
+   within a time budget) and reported as known findings, never believed from the model alone.
 3. Sequential replay (spec -> code): every maximal history of the VIEW-reduced sequential state space plus random deep TLC
    behaviours with rich batches are executed on a real tsm1.Cache; WriteMulti errors, Size() and Keys() are compared after every
    step, Values() where the history reads and for every key at the end.
@@ -23,6 +24,7 @@ import tlaval
 
 PAT_F8 = 'size_drift_after_dedup'
 PAT_SPAN = 'write_spans_snapshot_swap'
+PAT_ORPHAN = 'write_races_delete_range_entry'
 
 SEQ = dict(
     quick=dict(gen='Cache.Gen_quick.cfg', maxops=3, replay_budget=6000, sim=60, simw=2, depth=70, limit=60, concs=1),
@@ -173,11 +175,13 @@ def validate_chunk(ctx, path, tag, stats):
         ok, r = validate(ctx, sub, f'{tag}-r{rounds}')
         stats['tlc_trace_states'] += r.distinct
         stats['tlc_trace_generated'] = stats.get('tlc_trace_generated', 0) + r.generated
-        exact, leaks = set(), {}
-        for m in re.finditer(r'<<"@@EXACT", (\d+)>>', r.stdout):
-            exact.add(int(m.group(1)))
-        for m in re.finditer(r'<<"@@LEAK", (\d+), (-?\d+), (-?\d+), (TRUE|FALSE)>>', r.stdout):
-            leaks.setdefault(int(m.group(1)), []).append((int(m.group(2)), int(m.group(3)), m.group(4) == 'TRUE'))
+        # explanations of the quiescent end of each trace: (kind, drift, lost, strayed, glitched)
+        expl = {}
+        for m in re.finditer(r'<<"@@EXACT", (\d+), (TRUE|FALSE), (TRUE|FALSE)>>', r.stdout):
+            expl.setdefault(int(m.group(1)), set()).add(('exact', 0, 0, m.group(2) == 'TRUE', m.group(3) == 'TRUE'))
+        for m in re.finditer(r'<<"@@LEAK", (\d+), (-?\d+), (-?\d+), (TRUE|FALSE), (TRUE|FALSE)>>', r.stdout):
+            expl.setdefault(int(m.group(1)), set()).add(('leak', int(m.group(2)), int(m.group(3)), m.group(4) == 'TRUE',
+                                                         m.group(5) == 'TRUE'))
         if ok:
             upto = len(traces)
         else:
@@ -211,21 +215,26 @@ def validate_chunk(ctx, path, tag, stats):
             if overl:
                 ctx.nontrivial_sigs.add(f'trace:{tag}:{tr}')
                 stats['traces_with_overlap'] += 1
-            if tr in leaks and tr not in exact:
-                # the quiescent Size() differs from the accounted bytes under every linearization that explains the trace
-                ls = leaks[tr]
-                # every explanation without a stray write has drift == bytes lost to reader dedup (SizeAccounting holds in every
-                # state of the trace); F8 if such an explanation exists, else every explanation needs a write that spans a swap
-                pats = []
-                if any((not s) and d == lo and lo > 0 for d, lo, s in ls):
+            ex = sorted(expl.get(tr, ()))
+            clean = any(k == 'exact' and not st and not gl for k, d, lo, st, gl in ex)
+            if ex and not clean:
+                # no linearization explains the trace without one of the named deviations of Cache.tla.  SizeAccounting holds in
+                # every state of the trace, so every explanation is: pure reader-dedup drift (F8), or needs a write that spans a
+                # Snapshot swap (strayed), or a store.write that raced with DeleteRange on its entry (glitched).
+                if any(k == 'leak' and not st and not gl and d == lo and lo > 0 for k, d, lo, st, gl in ex):
                     pats = [PAT_F8]
-                elif all(s for d, lo, s in ls):
-                    pats = [PAT_SPAN]
+                else:
+                    pats = sorted(set(([PAT_SPAN] if any(st for k, d, lo, st, gl in ex) else []) +
+                                      ([PAT_ORPHAN] if any(gl for k, d, lo, st, gl in ex) else [])))
+                    if any(k == 'leak' and not st and not gl for k, d, lo, st, gl in ex):
+                        pats = []      # a drift nothing accounts for (cannot happen while SizeAccounting is checked)
+                e0 = ex[0]
                 ctx.divergences.append({'case': {'mode': 'trace', 'lines': [json.loads(x) for x in traces[j][1]]},
                                         'result': {'step': len(traces[j][1]) - 2, 'patterns': pats,
-                                                   'msg': f'quiescent end of trace: Size() exceeds the accounted bytes of the values and '
-                                                          f'keys held by {ls[0][0]} (model: {ls[0][1]} bytes dropped by reader dedup, '
-                                                          f'strayed={ls[0][2]})'}})
+                                                   'msg': 'every linearization that explains the trace needs a named deviation: '
+                                                          + '; '.join(f'{k}: Size()-accounted={d}, reader-dedup bytes={lo}, write spans '
+                                                                      f'snapshot swap={st}, write raced DeleteRange on its entry={gl}'
+                                                                      for k, d, lo, st, gl in ex[:4])}})
             if len(ctx.samples) < 3:
                 ctx.samples.append({'mode': 'trace', 'lines': [json.loads(x) for x in traces[j][1]][:40]})
         if ok:
@@ -309,7 +318,10 @@ def run(ctx):
     def t_mc3():
         return ctx.tlc('Cache', 'Cache.MC3_thorough.cfg', timeout=2400, coverage=True, workers=big, tag='mc3', count=False)
 
-    runs = [('mc', t_mc), ('lead1', t_lead1), ('lead2', t_lead2), ('gen', t_gen), ('sim', t_sim)]
+    def t_lead3():
+        return ctx.tlc('Cache', 'Cache.Lead_orphan.cfg', timeout=900, workers=1, tag='lead3', count=False)
+
+    runs = [('mc', t_mc), ('lead1', t_lead1), ('lead2', t_lead2), ('lead3', t_lead3), ('gen', t_gen), ('sim', t_sim)]
     if tier != 'quick':
         runs.append(('mc3', t_mc3))     # three writers on one key, <= 5 operations
     # at most three TLC processes (plus the go build) at a time
@@ -331,7 +343,8 @@ def run(ctx):
     for m in re.finditer(r'<(\w+) line \d+, col \d+ to line \d+, col \d+ of module \w+(?: \([\d ]+\))?>: (\d+):(\d+)', r.stdout):
         r.coverage[m.group(1)] = max(r.coverage.get(m.group(1), 0), int(m.group(3)))
     ctx.check_coverage(r, ['DoStartWrite', 'DoStartSnapshot', 'DoStartClear', 'DoStartDelete', 'DoStartRead',
-                           'IWCapture', 'IWReserve', 'IWStore', 'ICResetK', 'ICFinish', 'IRCopy'])
+                           'IWCapture', 'IWReserve', 'IWLookup', 'IWAdd', 'IWSlow', 'ISZero', 'ICResetK', 'ICFinish',
+                           'IDNext', 'IDFilter', 'IDCheck', 'IRCopy'])
     ctx.extra_cov['mc_action_coverage'] = {a: r.coverage.get(a, 0) for a in sorted(r.coverage) if a[:1] == 'I' or a[:2] == 'Do'}
     ctx.extra_cov['mc_states'] = r.distinct
     if 'mc3' in R:
@@ -344,6 +357,10 @@ def run(ctx):
         raise vlib.Inconclusive(f'lead run Lead_dedup: expected StrictSizeNoStray to fail on the model, got violated={lead.violated} ok={lead.ok}')
     if lead2.violated != 'StrictSizeNoDedup':
         raise vlib.Inconclusive(f'lead run Lead_stray: expected StrictSizeNoDedup to fail on the model, got violated={lead2.violated} ok={lead2.ok}')
+    lead3 = R['lead3']
+    if lead3.violated != 'StrictSizeNoDedupNoStray':
+        raise vlib.Inconclusive(f'lead run Lead_orphan: expected StrictSizeNoDedupNoStray to fail on the model, got violated={lead3.violated} ok={lead3.ok}')
+    ctx.extra_cov['lead_orphan_trace_len'] = len(lead3.trace)
     ctx.extra_cov['lead_dedup_trace_len'] = len(lead.trace)
     ctx.extra_cov['lead_stray_trace_len'] = len(lead2.trace)
     g, sim = R['gen'], R['sim']
@@ -400,9 +417,16 @@ def run(ctx):
             allcases.append(dict(cs, conc=c))
     # the forced schedule of the Lead_stray counterexample (a write that spans Snapshot + ClearSnapshot)
     allcases.append({'mode': 'span', 'nkeys': 100000})
+    # bounded search (ms) for the schedule of the Lead_orphan counterexample (write || DeleteRange on one entry)
+    allcases.append({'mode': 'orphan', 'nkeys': 6000 if tier == 'quick' else 30000})
     res, lines = ctx.replay(binary, allcases, timeout=1500)
     ctx.absorb(res, lines)
-    span = res[-1]
+    span = res[-2]
+    orphan = res[-1]
+    # the window is a few instructions wide: not hitting it within the budget is recorded, not an error (DESIGN section 10:
+    # timing); the lead was confirmed on the real cache by this search (about 1 hit per 1.5e5 iterations) and by a recorded trace
+    ctx.extra_cov['lead_orphan_reproduced_this_run'] = bool(not orphan.get('ok') and PAT_ORPHAN in (orphan.get('patterns') or []))
+    ctx.extra_cov['lead_orphan_search_iterations'] = orphan.get('evals')
     if span.get('ok') and span.get('kind') != 'infra':
         ctx.infra.append('lead Lead_stray (write spanning a Snapshot swap leaves Size() > accounted) did not reproduce on the real '
                          'cache: the spec models a race the code no longer has (update Cache.tla)')
@@ -441,8 +465,8 @@ def run(ctx):
     ctx.assumptions += [
         'every key of a WriteMulti batch carries at least one value (the engine never writes empty value lists)',
         'ClearSnapshot is called only by the holder of a successful Snapshot (API protocol; otherwise the code dereferences nil)',
-        'store.write(k), DeleteRange and each half of Values are single steps: the entry-level windows inside them (an entry pointer '
-        'held across another call; DESIGN F17) are not modelled -- a recorded trace that exhibits one would be rejected and reported',
+        'the entry pointers that Values holds between its lookup and its copy are not modelled (each half of Values is one step); '
+        'store.write (lookup / add) and DeleteRange (size / filter / remove+refund per key) are modelled step by step',
         'the limit test is check-then-reserve as in the code: the rejection guarantee is relative to the Size() the write observed, '
         'and counts value bytes only (key bytes are added after the test)',
         'data races are not decided here (C39)',
